@@ -72,6 +72,8 @@ structure ArrSpec where
   idxPos : Option Nat
   /-- `[]`: entry k gets the integer k + 1; otherwise the constant ids of the labels ('1:FRFC', ...) -/
   idxLabels : List Nat
+  /-- only the entries at positions below this are renumbered (`SerializableCPArray._check_indices` touches the first four) -/
+  idxLimit : Nat
 deriving DecidableEq
 
 /-- parameters of a float array (`FloatArrayDescriptor`) -/
@@ -310,15 +312,15 @@ def setKid (pos : Nat) (x : Val P S) : Val P S → Val P S
   | .node kids => .node (kids.set pos x)
   | v => v
 
-def reindexFrom (pos : Nat) (labels : List Nat) : Nat → List (Val P S) → List (Val P S)
+def reindexFrom (pos : Nat) (labels : List Nat) (lim : Nat) : Nat → List (Val P S) → List (Val P S)
   | _, [] => []
-  | k, v :: vs => setKid pos (.prim (idxVal C labels k)) v :: reindexFrom pos labels (k + 1) vs
+  | k, v :: vs => (if k < lim then setKid pos (.prim (idxVal C labels k)) v else v) :: reindexFrom pos labels lim (k + 1) vs
 
 /-- `_check_indices`: the canonical form of the entries of an object array -/
 def reindex (a : ArrSpec) (items : List (Val P S)) : List (Val P S) :=
   match a.idxPos with
   | none => items
-  | some pos => reindexFrom C pos a.idxLabels 0 items
+  | some pos => reindexFrom C pos a.idxLabels a.idxLimit 0 items
 
 /-- entry k already carries the index the container would give it -/
 def idxOk (pos : Nat) (labels : List Nat) (k : Nat) : Val P S → Bool
@@ -327,14 +329,14 @@ def idxOk (pos : Nat) (labels : List Nat) (k : Nat) : Val P S → Bool
     | _ => false
   | _ => false
 
-def idxOkFrom (pos : Nat) (labels : List Nat) : Nat → List (Val P S) → Bool
+def idxOkFrom (pos : Nat) (labels : List Nat) (lim : Nat) : Nat → List (Val P S) → Bool
   | _, [] => true
-  | k, v :: vs => idxOk C pos labels k v && idxOkFrom pos labels (k + 1) vs
+  | k, v :: vs => (decide (lim ≤ k) || idxOk C pos labels k v) && idxOkFrom pos labels lim (k + 1) vs
 
 def isCanonArr (a : ArrSpec) (items : List (Val P S)) : Bool :=
   match a.idxPos with
   | none => true
-  | some pos => idxOkFrom C pos a.idxLabels 0 items
+  | some pos => idxOkFrom C pos a.idxLabels a.idxLimit 0 items
 
 /-- `set_array`: length within the declared bounds, then `_check_indices` -/
 def finishArr (a : ArrSpec) (items : List (Val P S)) : Option (Val P S) :=
